@@ -1,6 +1,7 @@
 import CM.Proofs.InlCoverRewrite
 import CM.Proofs.InlCoverScan
 import CM.Proofs.InlCoverExamples
+import CM.Proofs.ParseScanLkCoverRewrite
 /-
 C03, inline half - "nothing lost": every letter, digit and non-ASCII byte of the unparsed runs handed to Rewrite is covered by a
 leaf of the result (20 proof files `InlCover*`: a fourth spec chain carrying the span invariant and a coverage frontier together;
@@ -11,9 +12,11 @@ coverage counterparts (`TokCover.html/code`, `LinkCover.inline/label`: what the 
 skip contains no needed byte outside their text pieces; the autolink scanner is discharged). "Not duplicated" follows from
 `rewrite_spans` + `no_duplication`. Deriving the scanner facts for block-phase trees is the open connection; on parser output
 the clause is evaluated by `Spec.coverage` on every tree.
-CAVEAT (sixth wave): `ContsOK` is the original scanner hypothesis, shown in `Props/C02Scan.lean` to be false for containers that hold
-a code span; `rewrite_cover` is therefore a statement about containers without one until the coverage development is re-run under
-`ContsOK2` like the span and no-panic developments were. `Spec.coverage` evaluated on the implementation's trees decides the rest.
+CORRECTION (sixth wave): `ContsOK` is the original scanner hypothesis, shown in `Props/C02Scan.lean` to be false for containers that
+hold a code span, so `rewrite_cover` spoke about fewer trees than intended. `rewrite_cover2` is the same conclusion under the repaired
+`ContsOK2` (8 generated files `ParseScanLkCover*`; two proof steps changed), whose container facts ARE derived for block-phase trees
+(`Props/C02Scan.lean`). `ContsCov` (the coverage counterparts) remains a hypothesis; `Spec.coverage` evaluated on the
+implementation's trees decides the rest.
 -/
 namespace CM.Props.C03
 open CM CM.Model CM.Model.Inl CM.Spec CM.Proofs CM.Proofs.InlH
@@ -26,5 +29,8 @@ theorem rewrite_cover (x : IExt) (src : Bytes) (srcA : Array UInt8) (matchRef : 
 
 /-- The model's bounded loop over the runs never stops early: the run index never decreases inside the tokenizer. -/
 theorem parseRun_run_index_monotone : type_of% @parseRun_uge := @parseRun_uge
+
+/-- The inline half under the repaired scanner hypotheses. -/
+theorem rewrite_cover2 : type_of% @CM.Proofs.InlH2.rewriteE_cover := @CM.Proofs.InlH2.rewriteE_cover
 
 end CM.Props.C03
